@@ -80,3 +80,61 @@ def run(ctx, fx, files, rule="R-PARTIALWRITE", only=None):
     ctx.instance(rule + ".sites", n)
     ctx.instance(rule + ".wrappers", len(partial))
     return n
+
+
+# ------------------------------------------------------------------ R-TAKEEXACT
+def bounded_section_read(ctx, fx, files, rule="R-TAKEEXACT", only=None):
+    """`reader.take(n).read_to_end(&mut buf)` stops silently at end of file: a loader that reads a section of declared
+    length this way must compare what it got with the declared length and refuse a short section (or use read_exact).
+    The count returned by read_to_end, or the length of the buffer it filled, reaches a comparison with an Err-only
+    outcome."""
+    import re as _re
+    from rules.pair import err_blocks
+    n = 0
+    for f in files:
+        for fid in fx.fn_ids(f):
+            if "::tests::" in fid or (only and not only(fid)):
+                continue
+            for k in range(fx.count(fid)):
+                fn = Fn(fx.raw(fid, k))
+                eb = None
+                for b, c in fn.calls():
+                    if not _re.search(r"Read>?::(read_to_end|read_to_string)$", c["f"]) or not c["a"]:
+                        continue
+                    r = op_local(c["a"][0])
+                    if r is None or "Take<" not in fn.ty(r):
+                        continue
+                    n += 1
+                    ctx.analysed_fns.add(fid)
+                    if eb is None:
+                        eb = err_blocks(fn)
+                    fw = fn.forward_locals([c["d"][0]]) | {c["d"][0]}
+                    watch = {l for l in fw if fn.ty(l) == "usize"}
+                    watch |= fn.forward_locals(watch) if watch else set()
+                    # length of the filled buffer
+                    bufroots = set()
+                    if len(c["a"]) > 1 and op_local(c["a"][1]) is not None:
+                        bufroots = set(fn.points_to(op_local(c["a"][1]))) | {op_local(c["a"][1])}
+                    for b2, c2 in fn.calls():
+                        if c2["f"].rsplit("::", 1)[-1] == "len" and c2["a"] and op_local(c2["a"][0]) is not None:
+                            l0 = op_local(c2["a"][0])
+                            if l0 in bufroots or set(fn.points_to(l0)) & bufroots or set(fn.backslice([l0], max_nodes=20)[0]) & bufroots:
+                                watch |= fn.forward_locals([c2["d"][0]]) | {c2["d"][0]}
+                    ok = False
+                    for loc, st in fn.iter_locs():
+                        if st[0] == "a" and st[2][0] == "bin" and st[2][1] in ("Eq", "Ne", "Lt", "Le", "Gt", "Ge") and len(st[1]) == 1 and \
+                                (op_local(st[2][2]) in watch or op_local(st[2][3]) in watch):
+                            for sb in fn.blocks():
+                                t = fn.term(sb)
+                                if t[0] == "sw" and op_local(t[1]) == st[1][0]:
+                                    succs = fn.succ(sb)
+                                    if any(s in eb for s in succs) and any(s not in eb for s in succs):
+                                        ok = True
+                    ctx.obligation(rule, fid, "short section refused", ok, sample={"fn": fid, "line": c["ln"]})
+                    if not ok:
+                        ctx.violation(rule, fid, "length-bounded read_to_end without a length check",
+                                      "%s reads a section with take(n).read_to_end (line %d) and never compares the number of bytes it got "
+                                      "with n: a file cut inside the section loads as Ok with truncated content"
+                                      % (fid.rsplit("::", 1)[-1], c["ln"]), fn.file, c["ln"])
+    ctx.instance(rule + ".sites", n)
+    return n
